@@ -123,6 +123,7 @@ func main() {
 		if err := json.Unmarshal(b, &p.Anchors); err != nil {
 			fail("anchors.json unreadable: " + err.Error())
 		}
+		p.ResolveAnchors()
 	}
 	known, err := core.LoadKnown(filepath.Join(*verif, "known_findings.json"))
 	if err != nil {
